@@ -138,7 +138,7 @@ POSITIVE = {
     'reset-then-reuse': fn('    let mut bump = Bump::new();\n    { let x = bump.alloc(1u32); *x += 1; }\n    bump.reset();\n    let y = bump.alloc(2u32);\n    let _ = *y;'),
     'iterate-then-allocate': fn('    let mut bump = Bump::new();\n    bump.alloc(1u8);\n    let n: usize = bump.iter_allocated_chunks().map(|c| c.len()).sum();\n    let y = bump.alloc(n);\n    let _ = *y;'),
     # every copying API of the collections takes its source for the duration of the call only: the collection may outlive it
-    'collections-outlive-copied-sources': fn('    let bump = Bump::new();\n    let mut s = BString::new_in(&bump);\n    let mut v: BVec<u8> = BVec::new_in(&bump);\n    {\n        let tmp = std::string::String::from("hello");\n        let parts = [tmp.as_str(), "x"];\n        s.push_str(&tmp);\n        s.extend(parts.iter().copied());\n        s.extend(std::iter::once(std::borrow::Cow::Borrowed(tmp.as_str())));\n        let cs: std::vec::Vec<char> = tmp.chars().collect();\n        s.extend(cs.iter());\n        s.insert_str(0, &tmp);\n        let bytes = tmp.as_bytes().to_vec();\n        v.extend_from_slice(&bytes);\n        v.extend_from_slice_copy(&bytes);\n        v.extend(bytes.iter());\n        let t = BString::from_str_in(&tmp, &bump);\n        s.push_str(&t);\n    }\n    let _ = s.len() + v.len();'),
+    'collections-outlive-copied-sources': fn('    let bump = Bump::new();\n    let mut s = BString::new_in(&bump);\n    let mut v: BVec<u8> = BVec::new_in(&bump);\n    {\n        let tmp = std::string::String::from("hello");\n        let parts = [tmp.as_str(), "x"];\n        s.push_str(&tmp);\n        s.extend(parts.iter().copied());\n        s.extend(std::iter::once(std::borrow::Cow::Borrowed(tmp.as_str())));\n        let cs: std::vec::Vec<char> = tmp.chars().collect();\n        s.extend(cs.iter());\n        s.insert_str(0, &tmp);\n        let bytes = tmp.as_bytes().to_vec();\n        v.extend_from_slice(&bytes);\n        v.extend_from_slice_copy(&bytes);\n        v.extend(bytes.iter());\n        let t = BString::from_str_in(&tmp, &bump);\n        s.push_str(&t);\n        let mut t2 = BString::new_in(&bump);\n        t2 += &tmp;\n        s = s + &tmp + t2.as_str();\n        s.replace_range(0..1, &tmp);\n        v.extend_from_slices_copy(&[&bytes[..], &bytes[..]]);\n    }\n    let _ = s.len() + v.len();'),
     'vec-outlives-nothing-but-arena': fn('    let bump = Bump::new();\n    let v = { let mut v = BVec::new_in(&bump); v.push(1u32); v };\n    let s = v.into_bump_slice();\n    let _ = s.len();'),
 }
 
